@@ -22,6 +22,7 @@ func verifPointFSM(fsm *stateMachine, name string)       {}
 func verifPointRepl(repl *replication, name string)      {}
 func verifServing(r *Raft, on bool)                      {}
 func verifLogChange(r *Raft, what string)                {}
+func verifReplRunning(r *Raft, d int64)                  {}
 func verifTransferTarget(l *leader, target uint64)       {}
 func verifSnapTaken(r *Raft, t *snapTaken)               {}
 func verifFSMApplied(fsm *stateMachine, e *entry)        {}
